@@ -41,6 +41,10 @@ CLAIMED = {
             "Twelve theorems (Props/C06.v) for all environments, literals, operators and trees of any depth. Literal text parsing (int()/float()) is glue done by the harness; consumers (inheritance, calibrator choice) are exercised under C05/C08.",
             "Trusted: Coq kernel+VM; Python's int()/float() literal parsing; correspondence sampling. Genuine defects F3, F4, F16 found by this check and repaired by fix: commits.",
             "DESIGN.md section 4 C06"),
+    "C04": ("Coq proof (unsigned/two's-complement/byte-reversed integer value of the bit slice, cursor, class; float glue at every offset and order; all 65536 binary16 patterns by kernel computation against Flocq's binary16 decoder) + kernel-evaluated correspondence with IntegerDataEncoding/FloatDataEncoding.parse_value, bit-exact against struct",
+            "Theorems C04_uint, C04_sint, C04_signed_range, C04_lsb_uint, C04_lsb_sint, C04_float_glue, C04_half_exhaustive (bound 2^16 stated). partial: the IEEE meaning of binary32/64 and MIL-1750A patterns is Flocq's normalisation of the decoded fields, tied to struct.unpack by the correspondence (class boundaries, NaNs, subnormals, random) rather than by a general theorem.",
+            "Trusted: Coq kernel+VM; Flocq 4.1 (its definitions depend on the standard library's real-number axioms, listed by Print Assumptions); struct.unpack.",
+            "DESIGN.md section 4 C04"),
 }
 PENDING_REASON = "check not built yet in this round; design in DESIGN.md section 4 (no technique switch planned)"
 
